@@ -27,8 +27,12 @@ From Verif Require Import Base.Word Model.Coa.
 Import ListNotations.
 Local Open Scope N_scope.
 
+(* o_ma: the driver's claim about the request's Message-Authenticator (attribute 80), 0 = no claim,
+   1 = present with a valid HMAC-MD5, 2 = present, not valid. Not read by the monitor (the property
+   does not mention it); CoaCheck.step checks the claim against a Gallina HMAC-MD5 (generator
+   self-check). *)
 Record op := { o_dg : bytes; o_hr : hresp; o_authentic : bool;
-               o_tbl : list (bytes * bytes); o_md5 : bool }.
+               o_tbl : list (bytes * bytes); o_md5 : bool; o_ma : N }.
 Inductive out :=
 | OPanic
 | OMiss                                           (* Model only: digest not in the case's table *)
@@ -126,6 +130,38 @@ End Reference.
 
 Definition s_respkey (secret dg r : bytes) : bytes := firstn 4%nat r ++ s_auth dg ++ skipn 20%nat r ++ secret.
 
+(* ---------- the property, stated on what was emitted (independent of the Model) ----------
+   [resp_wire_ok H secret dg r]: the datagram [r] that was SENT, as a byte string with whatever
+   attribute bytes it carries, is a response to [dg] in the sense of the property text:
+   identifier = request identifier, code = ACK/NAK of the request's code, Length field = datagram
+   length, and bytes 4..19 = digest(code, id, length, Request Authenticator of dg,
+   attributes-as-sent, secret). *)
+Definition resp_wire_ok (H : bytes -> bytes) (secret dg r : bytes) : bool :=
+  Nat.leb 20%nat (length r) && (nth 1%nat r 0 =? nth 1%nat dg 0) &&
+  ((nth 0%nat r 0 =? s_code dg + 1) || (nth 0%nat r 0 =? s_code dg + 2)) &&
+  Nat.eqb (s_len r) (length r) &&
+  bytes_eqb (digest16 (H (s_respkey secret dg r))) (firstn 16%nat (skipn 4%nat r)).
+
+(* "complete RADIUS packet whose Request Authenticator verifies" + CoA/Disconnect request *)
+Definition s_authentic (H : bytes -> bytes) (secret dg : bytes) : bool :=
+  s_complete dg && bytes_eqb (digest16 (H (s_reqkey secret dg))) (s_auth dg).
+
+(* what the property text says about ONE delivered datagram and the effects observed for it
+   ([installed]: a handler for the request's kind is installed) *)
+Definition C15_step_ok (H : bytes -> bytes) (secret : bytes) (coa_set dm_set : bool)
+           (dg : bytes) (calls : list (N * request)) (resps : list bytes) : Prop :=
+  let installed := if s_code dg =? 43 then coa_set else dm_set in
+  (* only if: any effect needs an authentic CoA/Disconnect request; handler calls are of its kind *)
+  ((calls <> [] \/ resps <> []) -> s_authentic H secret dg = true /\ s_isreq dg = true) /\
+  (forall c, In c calls -> fst c = s_code dg) /\
+  (* if: an authentic, well-formed request is answered once and handed to the installed handler once *)
+  (s_authentic H secret dg = true -> s_isreq dg = true -> s_wf dg = true ->
+   length resps = 1%nat /\ length calls = (if installed then 1%nat else 0%nat)) /\
+  (* never more than one response / one call, no call without a response *)
+  (length resps <= 1 /\ length calls <= (if installed then 1 else 0) /\ length calls <= length resps)%nat /\
+  (* every response emitted verifies against the request, whatever attributes it carries *)
+  (forall r, In r resps -> resp_wire_ok H secret dg r = true).
+
 Section Accept.
   Variable Ho : bytes -> option bytes.
 
@@ -179,3 +215,11 @@ Section Accept.
           end
     end.
 End Accept.
+
+(* the monitor over a whole trace (the harness uses Base/Check.accept_trace, the same fold with
+   step numbers); true = every step accepted *)
+Fixpoint accept_list (Ho : bytes -> option bytes) (ss : sstate) (tr : list (op * out)) : bool :=
+  match tr with
+  | [] => true
+  | (o, r) :: tl => match accept Ho ss o r with inl ss' => accept_list Ho ss' tl | inr _ => false end
+  end.
